@@ -18,7 +18,14 @@ type c12FS struct {
 
 func c12FSPrestate() *c12FS {
 	v := verifNewFS(config.PipeConfig{}, false, true)
-	v.rootOnly()
+	if vm.Bool("rebuiltIndex") {
+		// opened over an index rebuilt from the tape: names are stored relative to the root ""
+		v.Env.RelNames = true
+		v.Env.AddEntry("/", tar.TypeDir, 0, false, "")
+		v.Env.P.VerifSetRoot("")
+	} else {
+		v.rootOnly()
+	}
 	s := &c12FS{v: v}
 	s.d = "/" + persisters.VerifComponent("D", 2, persisters.VerifAlphabet)
 	v.Env.AddEntry(s.d, tar.TypeDir, 0, false, "")
@@ -44,7 +51,7 @@ func (s *c12FS) liveNames() map[string]bool {
 	out := map[string]bool{}
 	for _, r := range s.v.Env.P.VerifRows() {
 		if r.Deleted != 1 {
-			out[r.Name] = true
+			out["/"+strings.TrimPrefix(r.Name, "/")] = true
 		}
 	}
 	return out
